@@ -181,6 +181,16 @@ CHECKS = {
              "histories are replayed with real containers, models and a registered raising printer, outputs compared with "
              "a clean-state reference, and the (_quoting, |_seen|) snapshots of every nested call validated by TLC.",
         note="Graphs whose cycles pass only through immutable models cannot be built and are skipped."),
+    "C29": dict(
+        engine="models", level="model_checking", design="5.5, 6/C29",
+        technique="TLC explores HyAsModel (as_model's _seen guard) over all small value graphs and promotion histories; "
+                  "histories replayed on real values; random nested values round-tripped through hy.eval",
+        text="The spec models as_model/recwrap step by step (self-reference check, unpromotable objects, id added and "
+             "removed in finally); TLC checks that _seen is empty between top-level promotions whatever was raised and that "
+             "the outcome depends on the value only (and that dropping the finally breaks this); histories are replayed on "
+             "real lists, dicts, models and functions, and random nested values must satisfy eval(as_model(v)) = v and "
+             "idempotence.",
+        note="Value graphs whose cycles pass only through immutable models cannot be built and are skipped."),
     "C30": dict(
         engine="models", level="model_checking", design="5.5, 6/C30",
         technique="HyQuasi (render_quoted_form as a function on trees): QuoteIsIdentity checked by TLC per template; "
